@@ -2,14 +2,18 @@ package main
 
 // Executor subprocesses. Every compile of this check runs in a child of the
 // same binary ("--c07-exec"):
-//   * rdb.NewBuilder allocates a 20M-entry slice (~1 GB) per compile. Fresh from
-//     the OS that costs nothing (the pages are never touched), but once the
-//     collector has recycled the span every further builder compile in the
-//     process pays for re-zeroing and re-faulting 1 GB (measured here: 2-25 s per
-//     compile, no scaling beyond 4 threads). So builder compiles run either one
-//     per child, or several in a child whose collector is off (small files only:
-//     without collection every allocation touches new pages, which is slow for
-//     60 000-line files on this VM).
+//   * rdb.NewBuilder allocates a 20M-entry slice of pointer-carrying structs
+//     (~1 GB) per compile. Fresh from the OS that costs nothing (the pages are
+//     never touched). With the collector running it is ruinous for a check that
+//     compiles thousands of tiny files: every collection cycle during the parse
+//     scans the whole 1 GB object (measured: 40 CPU-seconds for one 60 000-line
+//     file), and once the span has been recycled every further builder compile
+//     re-zeroes and re-faults 1 GB (measured: 2-25 s per compile, no scaling
+//     beyond 4 threads in one process). So builder compiles run in children whose
+//     collector is off: 24 per child for the small files, one per child for the
+//     large files (without collection every allocation touches new pages, which
+//     is itself slow for 60 000-line files on this VM). Everything else runs in
+//     children with the collector on, a few hundred compiles per child.
 //   * a compile that hangs (DESIGN §5 item 11) or crashes inside cgo only costs
 //     the child: the parent sees which (file, setting) did not answer.
 //   * runtime.NumCPU() - which the bulk loader uses as the maximum bucket count -
@@ -323,11 +327,11 @@ func runChild(parentDir string, jobs []execJob, ncpu int, gcOff, wantDiff bool, 
 		return oc, err
 	}
 	type msg struct {
-		res execRes
-		err error
+		hello *execHello
+		res   execRes
+		err   error
 	}
-	ch := make(chan msg, 16)
-	hello := make(chan execHello, 1)
+	ch := make(chan msg, 16) // one ordered stream: hello, then the results, then the error that ends it
 	go func() {
 		dec := gob.NewDecoder(bufio.NewReader(stdout))
 		var h execHello
@@ -335,7 +339,7 @@ func runChild(parentDir string, jobs []execJob, ncpu int, gcOff, wantDiff bool, 
 			ch <- msg{err: err}
 			return
 		}
-		hello <- h
+		ch <- msg{hello: &h}
 		for {
 			var r execRes
 			if err := dec.Decode(&r); err != nil {
@@ -374,12 +378,13 @@ func runChild(parentDir string, jobs []execJob, ncpu int, gcOff, wantDiff bool, 
 	gotHello := false
 	for !gotHello {
 		select {
-		case h := <-hello:
-			oc.NumCPU = h.NumCPU
-			gotHello = true
 		case m := <-ch:
-			kill()
-			return oc, fmt.Errorf("child did not start: %v; stderr: %s", m.err, tail(stderr.String(), 600))
+			if m.hello == nil {
+				kill()
+				return oc, fmt.Errorf("child did not start: %v; stderr: %s", m.err, tail(stderr.String(), 600))
+			}
+			oc.NumCPU = m.hello.NumCPU
+			gotHello = true
 		case <-tick.C:
 			if idle.idleFor() >= idleLimit || time.Since(started) > absoluteLimit {
 				kill()
